@@ -75,6 +75,7 @@ type Enc struct {
 	initFactsDone map[string]bool
 	initUnit      bool
 	preserved     []modTarget // state preserved across unbounded-frame calls (kind loc or elems)
+	deferredPres  []deferredPreserve
 	revealed      map[string]bool
 	revealDone    map[string]bool
 	epochCounter  int
